@@ -54,7 +54,7 @@ def minimums(tier):
     return {"runs.readonly": 4000, "runs.delete": 500, "runs.delete_all": 300, "runs.json": 300, "snapshots.compared": 5000,
             "audit.events": 500, "delete.removed_one": 200, "delete.not_found": 100, "delete.invalid_id": 50,
             "nested.preserved": 300, "runs.file_clean": 200, "runs.readonly_with_dominated_options": 1000,
-            "delete_all.with_special_entries": 80}
+            "delete_all.with_special_entries": 80, "delete.pattern_like_ids": 300}
 
 
 def build_tree(rng, u, reg, root, i):
@@ -168,6 +168,18 @@ def run(spec, ctx):
         if e0:
             cands += ["%08X" % eid, ("%08x" % eid), "0x%08X" % eid]
         cands += ["%08X" % rng.randrange(1 << 32), "123", "%09X" % rng.randrange(1 << 36), "zzzzzzzz"]
+        if e0:
+            # eight characters that are no id of any file but would match one if read as a shell pattern or a path
+            h = "%08X" % eid
+            k = rng.randrange(8)
+            cands += [h[:k] + "?" + h[k + 1:], "*" + h[1:], h[:7] + "*", "[%s]%s" % (h[0], h[3:]), "0x" + h[:k] + "?" + h[k + 1:]] * 1
+            subs = sorted({os.path.dirname(t) for t in d.entries_rel()} - {""}) if hasattr(d, "entries_rel") else []
+            nested_names = [k2 for k2 in dirs.snapshot(d.root) if "/" in k2.rstrip("/") and not k2.endswith("/")]
+            for nn in nested_names[:2]:
+                seg = nn[max(0, nn.index("/") - 3):nn.index("/") + 5]
+                if len(seg) == 8:
+                    cands += [seg] * 2                      # e.g. "ive/5000": spans a directory separator
+            ctx.count("delete.pattern_like_ids")
         if i in PATH_IDS:
             cands += [PATH_IDS[i], PATH_IDS[i].lower()] * 2
         digits = [t.name for t in top if len(t.name) >= 12 and t.name[:12].isdigit()]
